@@ -292,3 +292,158 @@ theorem visible_prefix_stable (i : Nat) (s : State) (v : Iov) (hv : s.w.iov i = 
   exact List.prefix_append _ _
 
 end Woodpile.Iovec.Api
+
+/-! ### `new_from_slices(slices, Some(arena))` is the history `new_from_arena(arena); extend(slices)` -/
+
+namespace Woodpile.Iovec.Api
+open Woodpile.Iovec Woodpile.Arena
+
+/-- An iovec that only holds borrowed slices `ss` (what `new_from_slices` builds). -/
+def borrowedIov (ar : Arena) (ss : List Slice) : Iov :=
+  { Iov.empty with slices := ss, anchors := if ss.isEmpty then [] else [⟨ss.length, none⟩], arena := ar,
+                   logicalSize := (ss.map (·.len)).foldl (· + ·) 0 }
+
+theorem arenaContains_ext (a : Arena) (s : Slice) (b : Nat) (h : s.region = .ext b) : arenaContains a s = false := by
+  unfold arenaContains
+  cases a.cache with
+  | none => rfl
+  | some c => simp [h]
+
+theorem tryJoin_ext (a : Arena) (l r : Slice) (b : Nat) (h : l.region = .ext b) : tryJoin a l r = none := by
+  unfold tryJoin
+  simp [arenaContains_ext a l b h]
+
+theorem setIov_setIov (w : World) (i : Nat) (a b : Option Iov) : (w.setIov i a).setIov i b = w.setIov i b := by
+  unfold World.setIov
+  simp only [World.mk.injEq, and_true, true_and]
+  unfold listSet
+  by_cases h : i < w.iovs.length
+  · simp [h]
+  · simp only [h, if_false]
+    have hl : (w.iovs ++ List.replicate (i - w.iovs.length) none ++ [a]).length = i + 1 := by
+      simp; omega
+    rw [if_pos (by rw [hl]; omega)]
+    rw [List.set_append_right _ _ (by simp; omega)]
+    have : i - (w.iovs ++ List.replicate (i - w.iovs.length) none).length = 0 := by simp; omega
+    rw [this]
+    simp
+
+/-- `optimize` cannot merge when the slices are caller buffers. -/
+theorem optimize_borrowed (ar : Arena) (l : List Slice) (hext : ∀ x ∈ l, ∃ b, x.region = .ext b) :
+    (borrowedIov ar l).optimize = some (borrowedIov ar l) := by
+  unfold Iov.optimize
+  by_cases hn : (borrowedIov ar l).slices.length < 2
+  · simp only [hn, if_true]
+  · simp only [hn, if_false]
+    have hlen : (borrowedIov ar l).slices.length = l.length := rfl
+    rw [hlen] at hn
+    have hne : l.isEmpty = false := by
+      cases l with
+      | nil => simp at hn
+      | cons _ _ => rfl
+    have hlast : (borrowedIov ar l).anchors.getLast? = some ⟨l.length, none⟩ := by
+      simp [borrowedIov, hne]
+    rw [hlast]
+    simp only
+    have hc0 : ¬ l.length = 0 := by omega
+    rw [if_neg hc0, if_neg hn]
+    have hidx : l.length - 2 < l.length := by omega
+    have hmem : (borrowedIov ar l).slices.getD ((borrowedIov ar l).slices.length - 2) ⟨.ext 0, 0, 0⟩ ∈ l := by
+      show l.getD (l.length - 2) _ ∈ l
+      rw [List.getD_eq_getElem?_getD, List.getElem?_eq_getElem hidx]
+      exact List.getElem_mem hidx
+    obtain ⟨b, hb⟩ := hext _ hmem
+    rw [tryJoin_ext _ _ _ b hb]
+
+theorem pushBorrowedSlice_borrowed (ar : Arena) (pre : List Slice) (s : Slice)
+    (hext : ∀ x ∈ pre ++ [s], ∃ b, x.region = .ext b) (hs : s.len ≠ 0) :
+    (borrowedIov ar pre).pushBorrowedSlice s = some (borrowedIov ar (pre ++ [s])) := by
+  unfold Iov.pushBorrowedSlice
+  rw [if_neg hs]
+  have key : ∀ X : Iov, X = borrowedIov ar (pre ++ [s]) → X.optimize = some (borrowedIov ar (pre ++ [s])) := by
+    intro X hX; rw [hX]; exact optimize_borrowed ar _ hext
+  apply key
+  cases pre with
+  | nil => simp [borrowedIov, Iov.empty, setLast]
+  | cons p t => simp [borrowedIov, Iov.empty, setLast, List.foldl_append]
+
+theorem foldl_sum_filter_pos (l : List Slice) :
+    ((l.filter (fun s => s.len > 0)).map (·.len)).foldl (· + ·) 0 = (l.map (·.len)).foldl (· + ·) 0 := by
+  rw [foldl_add_eq_sum, foldl_add_eq_sum]
+  induction l with
+  | nil => rfl
+  | cons s t ih =>
+    by_cases hs : s.len > 0
+    · simp [hs, ih]
+    · have : s.len = 0 := by omega
+      simp [ih, this]
+
+/-- `extend` with borrowed slices on an iovec that only holds borrowed slices. -/
+theorem extend_borrowed (n : Nat) (ar : Arena) : ∀ (new pre : List Slice) (W : World),
+    (∀ x ∈ pre ++ new, ∃ b, x.region = .ext b) →
+    W.iov n = some (borrowedIov ar pre) →
+    W.extend n new = some (W.setIov n (some (borrowedIov ar (pre ++ new.filter (fun s => s.len > 0))))) := by
+  intro new
+  induction new with
+  | nil =>
+    intro pre W _ hv
+    simp only [World.extend, List.filter_nil, List.append_nil]
+    congr 1
+    unfold World.setIov World.iov at *
+    cases W
+    simp only [World.mk.injEq, true_and, and_true] at *
+    unfold listSet
+    by_cases h : n < ‹List (Option Iov)›.length
+    · simp only [h, if_true]
+      apply List.ext_getElem?
+      intro k
+      rw [List.getElem?_set]
+      by_cases hk : n = k
+      · subst hk
+        simp only [h, if_true]
+        rw [List.getD_eq_getElem?_getD] at hv
+        rw [List.getElem?_eq_getElem h] at hv ⊢
+        simpa using hv
+      · simp [hk]
+    · exfalso
+      rw [List.getD_eq_getElem?_getD, List.getElem?_eq_none (by omega)] at hv
+      simp at hv
+  | cons s rest ih =>
+    intro pre W hext hv
+    unfold World.extend
+    by_cases hs : s.len = 0
+    · rw [if_pos hs]
+      have hf : (s :: rest).filter (fun s => s.len > 0) = rest.filter (fun s => s.len > 0) := by
+        simp [hs]
+      rw [hf]
+      exact ih pre W (fun x hx => hext x (by
+        rcases List.mem_append.mp hx with h | h
+        · exact List.mem_append.mpr (Or.inl h)
+        · exact List.mem_append.mpr (Or.inr (List.mem_cons_of_mem _ h)))) hv
+    · rw [if_neg hs]
+      have hpb : W.pushBorrowed n s = some (W.setIov n (some (borrowedIov ar (pre ++ [s])))) := by
+        unfold World.pushBorrowed
+        rw [hv]
+        simp only [hs, if_false]
+        rw [pushBorrowedSlice_borrowed ar pre s (fun x hx => hext x (by
+          rcases List.mem_append.mp hx with h | h
+          · exact List.mem_append.mpr (Or.inl h)
+          · simp only [List.mem_singleton] at h; subst h; simp)) hs]
+      rw [hpb]
+      simp only
+      have hf : (s :: rest).filter (fun s => s.len > 0) = s :: rest.filter (fun s => s.len > 0) := by
+        have : s.len > 0 := by omega
+        simp [this]
+      rw [hf]
+      have := ih (pre ++ [s]) (W.setIov n (some (borrowedIov ar (pre ++ [s]))))
+        (fun x hx => hext x (by
+          rcases List.mem_append.mp hx with h | h
+          · rcases List.mem_append.mp h with h' | h'
+            · exact List.mem_append.mpr (Or.inl h')
+            · simp only [List.mem_singleton] at h'; subst h'; simp
+          · exact List.mem_append.mpr (Or.inr (List.mem_cons_of_mem _ h))))
+        (by simp)
+      rw [this, setIov_setIov]
+      simp [List.append_assoc]
+
+end Woodpile.Iovec.Api
